@@ -408,6 +408,7 @@ class PathEval:
             if items is not None and len(items) <= 8:
                 # a loop over a literal container is unrolled
                 states = [p]
+                broke: List[Path] = []
                 for it in items:
                     nxt = []
                     for q in states:
@@ -415,13 +416,15 @@ class PathEval:
                         n_done = len(self.done)
                         res = self.block(s.body, [q])
                         ended = [e for e in self.done[n_done:] if e.ret == CONTINUE]
-                        self.done = self.done[:n_done] + [e for e in self.done[n_done:] if e.ret != CONTINUE]
-                        for e in ended:
+                        left = [e for e in self.done[n_done:] if e.ret == BREAK]
+                        self.done = self.done[:n_done] + [e for e in self.done[n_done:] if e.ret not in (CONTINUE, BREAK)]
+                        for e in ended + left:
                             e.ret = None
                             e.end = None
                         nxt.extend(res + ended)
+                        broke.extend(left)  # `break` leaves the loop and skips its else clause
                     states = nxt
-                return self.block(s.orelse, states) if s.orelse else states
+                return (self.block(s.orelse, states) if s.orelse else states) + broke
         if isinstance(s, (ast.For, ast.While)):
             bound = set()
             for x in ast.walk(s):
